@@ -7,6 +7,7 @@ import (
 	"io"
 	"os"
 	"os/exec"
+	"regexp"
 	"runtime"
 	"runtime/metrics"
 	"strconv"
@@ -35,7 +36,19 @@ type corruptTarget interface {
 
 var corruptTargets = map[string]func(quick bool) corruptTarget{}
 
+// snapshotting targets can be saved by the parent and restored by workers (cheap worker start-up matters because
+// every process death costs three start-ups).
+type snapshotter interface {
+	Snapshot() ([]byte, error)
+}
+
+var corruptRestore = map[string]func(b []byte, quick bool) (corruptTarget, error){}
+
 const workerASLimit = 2 << 30
+
+// noProgress: a single case takes milliseconds; a worker that reports nothing for this long is stuck. The case
+// must get stuck again, twice, when re-run alone before it is reported.
+const noProgress = 40 * time.Second
 
 func allocBytes() uint64 {
 	s := []metrics.Sample{{Name: "/gc/heap/allocs:bytes"}}
@@ -58,7 +71,17 @@ func init() {
 		hi, _ := strconv.Atoi(args[3])
 		lim := syscall.Rlimit{Cur: workerASLimit, Max: workerASLimit}
 		_ = syscall.Setrlimit(syscall.RLIMIT_AS, &lim)
-		t := mk(quick)
+		var t corruptTarget
+		if snap := os.Getenv("VERIF_CORRUPT_SNAPSHOT"); snap != "" && corruptRestore[args[0]] != nil {
+			if b, err := os.ReadFile(snap); err == nil {
+				if rt, err := corruptRestore[args[0]](b, quick); err == nil {
+					t = rt
+				}
+			}
+		}
+		if t == nil {
+			t = mk(quick)
+		}
 		w := bufio.NewWriter(os.Stdout)
 		for i := lo; i < hi; i++ {
 			fmt.Fprintf(w, "S %d\n", i)
@@ -67,6 +90,7 @@ func init() {
 			if pm := guard(func() { res = t.Run(i, quick) }); pm != "" {
 				res = corruptResult{Sig: "panic|" + pm, Msg: pm, Outcome: "panic"}
 			}
+			res.Sig = normSig(res.Sig)
 			b, _ := json.Marshal(res)
 			fmt.Fprintf(w, "D %d %s\n", i, b)
 			if i%256 == 255 {
@@ -96,8 +120,26 @@ func runCorrupt(r *ev.Run, target string, sigPrefix string) (*corruptStats, int)
 	if vmc == "" {
 		vmc, _ = os.Executable()
 	}
+	snapPath := ""
+	if sn, ok := t.(snapshotter); ok {
+		if b, err := sn.Snapshot(); err == nil {
+			dir := os.Getenv("VERIF_SCRATCH")
+			if dir == "" {
+				dir = os.TempDir()
+			}
+			snapPath = dir + "/corrupt-" + target + ".snap"
+			if os.WriteFile(snapPath, b, 0o600) != nil {
+				snapPath = ""
+			}
+		}
+	}
+	defer func() {
+		if snapPath != "" {
+			os.Remove(snapPath)
+		}
+	}()
 	nw := runtime.NumCPU()
-	chunk := (n + nw*4 - 1) / (nw * 4)
+	chunk := (n + nw*8 - 1) / (nw * 8)
 	if chunk < 1 {
 		chunk = 1
 	}
@@ -120,7 +162,7 @@ func runCorrupt(r *ev.Run, target string, sigPrefix string) (*corruptStats, int)
 	// runSpan runs [lo,hi) in one worker; returns (lastStarted, finishedAll, stderrTail, waitErr)
 	runSpan := func(lo, hi int, timeout time.Duration) (inflight int, completed int, diag string) {
 		cmd := exec.Command(vmc, "worker", "corrupt", target, tier, strconv.Itoa(lo), strconv.Itoa(hi))
-		cmd.Env = append(os.Environ(), "GOMAXPROCS=2", "GOGC=50")
+		cmd.Env = append(os.Environ(), "GOMAXPROCS=2", "GOGC=50", "VERIF_CORRUPT_SNAPSHOT="+snapPath)
 		out, _ := cmd.StdoutPipe()
 		var errb strings.Builder
 		cmd.Stderr = &limitedWriter{w: &errb, n: 4096}
@@ -212,7 +254,14 @@ func runCorrupt(r *ev.Run, target string, sigPrefix string) (*corruptStats, int)
 			defer wg.Done()
 			for {
 				mu.Lock()
-				if next >= len(spans) || r.OutOfTime() {
+				st.mu.Lock()
+				tooMany := st.deaths > 40
+				st.mu.Unlock()
+				if next >= len(spans) || r.OutOfTime() || tooMany {
+					if tooMany {
+						r.Set("stopped_early", "more than 40 worker deaths/hangs: exploration stopped, what was covered is reported")
+						r.Capped = true
+					}
 					mu.Unlock()
 					return
 				}
@@ -221,7 +270,7 @@ func runCorrupt(r *ev.Run, target string, sigPrefix string) (*corruptStats, int)
 				mu.Unlock()
 				lo := sp.lo
 				for lo < sp.hi {
-					inflight, completed, diag := runSpan(lo, sp.hi, 120*time.Second)
+					inflight, completed, diag := runSpan(lo, sp.hi, noProgress)
 					if diag == "" {
 						break
 					}
@@ -236,7 +285,7 @@ func runCorrupt(r *ev.Run, target string, sigPrefix string) (*corruptStats, int)
 					// reproduce: the death must happen again twice on that single case
 					rep := 0
 					for k := 0; k < 2; k++ {
-						if _, _, d2 := runSpan(bad, bad+1, 120*time.Second); d2 != "" {
+						if _, _, d2 := runSpan(bad, bad+1, noProgress); d2 != "" {
 							rep++
 						}
 					}
@@ -247,6 +296,9 @@ func runCorrupt(r *ev.Run, target string, sigPrefix string) (*corruptStats, int)
 						cls := "process-death"
 						if strings.Contains(diag, "no progress") {
 							cls = "hang"
+						}
+						if nm, ok := t.(interface{ ImageOf(i int) string }); ok {
+							cls = nm.ImageOf(bad) + "|" + cls
 						}
 						r.Report(sigPrefix+"|"+cls+"|"+deathClass(diag), "reader killed the process / did not return: "+diag, map[string]any{"target": target, "tier": tier, "index": bad, "case": t.Describe(bad, quick)})
 						st.mu.Lock()
@@ -328,4 +380,18 @@ func replayCorrupt(raw []byte) string {
 		}
 	}
 	return "no result line"
+}
+
+var reSigNums = regexp.MustCompile(`\[[0-9:x]*\]|[0-9]+`)
+
+// normSig drops indices, lengths and capacities from panic texts so that one faulty site is one signature.
+func normSig(sig string) string {
+	if !strings.Contains(sig, "panic") {
+		return sig
+	}
+	s := reSigNums.ReplaceAllString(sig, "")
+	s = strings.ReplaceAll(s, " with length ", "")
+	s = strings.ReplaceAll(s, " with capacity ", "")
+	s = strings.ReplaceAll(s, "runtime error: ", "")
+	return strings.Join(strings.Fields(s), " ")
 }
